@@ -5,11 +5,13 @@
    Processes (goroutines in the replay harness harness/cmd/limiter):
      caller c  : rl.Acquire(ctx, cu, method, execute)        kinds: heavy_cu | heavy_debug | heavy_batch | normal
      worker w  : the limiter's own processQueue goroutine (heavy bucket)
-     event e   : environment, par.ev[e] = [k, c]: k = "cancel"   the caller's context is cancelled (any time)
-                                                  k = "deadline" the queue deadline of c fires while c is enqueued
-   Queue deadline of a caller (to): "never" | "expired" (already expired when the request is enqueued) |
-   "late" (fires when the environment says so; the hard-coded 30 s are replaced through the verif-only setter).
-   queueCtx is done as soon as the first of cancel / deadline happened (first[c]); its error is that first cause.
+     event e   : environment, par.ev[e] = [k, c]: k = "cancel"    the caller's context is cancelled (any time)
+                                                  k = "pdeadline" the caller's own context deadline expires (any time)
+   Queue deadline of a caller (to): "never" | "expired" (already expired when the request is enqueued; the hard-coded
+   30 s are replaced through the verif-only setter).  A queue deadline firing later is the same ctx mechanism as the
+   caller's deadline (queueCtx = WithTimeout(ctx)) but needs a real timer, so the replayable model fires the caller's.
+   queueCtx is done as soon as the first of cancel / pdeadline / expired queue deadline happened (first[c]); its error
+   is that first cause.
 
    pc / wpc are the yield points at which the goroutines are parked: harness-level ("start", and
    "exec" = inside the execute callback) or the build-tagged hooks (hooks/rpcprovider_limiter.patch):
@@ -37,8 +39,8 @@ VARIABLES par,
           wpc, wcur, \* worker: "idle" | "checked" | "exec" | "send"; the request it works on
           permH, permN,      \* permits in use
           queue,     \* heavy queue: sequence of callers
-          canc,      \* caller's parent ctx cancelled
-          first,     \* what made the caller's (queue) ctx done first: "none" | "cancel" | "deadline"
+          canc,      \* caller's parent ctx done (cancelled or its deadline expired)
+          first,     \* what made the caller's (queue) ctx done first: "none" | "cancel" | "pdeadline" | "deadline" (queue)
           fired,     \* environment events that happened
           exec, done,        \* per caller: executions started / finished
           res,       \* what Acquire returned: "none" | "ok" (its own run's result) | "err"
@@ -56,7 +58,7 @@ Callers == DOMAIN par.cal
 Events == DOMAIN par.ev
 Heavy(c) == par.cal[c].kind # "normal"          \* selectBucket: high CU, debug_/trace_ prefix, batch (&)
 CtxDone(c) == first[c] # "none"                 \* queueCtx of an enqueued request is done
-QErr(c) == IF first[c] = "deadline" THEN "deadline_exceeded" ELSE "canceled"      \* queueCtx.Err()
+QErr(c) == IF first[c] = "cancel" THEN "canceled" ELSE "deadline_exceeded"       \* queueCtx.Err()
 Rec(p) == hist' = IF GenHist THEN Append(hist, p) ELSE hist
 
 InitFor(P) ==
@@ -139,9 +141,8 @@ CWait(c) ==
 Event(e) ==
   LET c == par.ev[e].c  k == par.ev[e].k IN
   /\ ~fired[e] /\ pc[c] # "fin"
-  /\ k = "deadline" => (par.cal[c].to = "late" /\ pc[c] \in {"presend", "waiting"})
   /\ fired' = [fired EXCEPT ![e] = TRUE]
-  /\ canc' = IF k = "cancel" THEN [canc EXCEPT ![c] = TRUE] ELSE canc
+  /\ canc' = [canc EXCEPT ![c] = TRUE]
   /\ first' = IF first[c] = "none" THEN [first EXCEPT ![c] = k] ELSE first
   /\ Stay
   /\ UNCHANGED <<pc, wpc, wcur, permH, permN, queue, exec, done, chan, st, rejected, queued, timeouts>>
@@ -210,7 +211,17 @@ ErrMeansNotRun == \A c \in Callers : res[c] = "err" => exec[c] = 0
 \* after the execution of the request had already started
 F10Class(c) == /\ res[c] = "err" /\ exret[c] >= 1 /\ CtxDone(c)
                /\ why[c] \in {"canceled", "deadline_exceeded", "queue_timeout"}
+               /\ why[c] = "canceled" => first[c] = "cancel"                          \* exactly the error the ctx case returns
+               /\ why[c] = "queue_timeout" => (first[c] = "deadline" /\ ~canc[c])
+               /\ why[c] = "deadline_exceeded" => (first[c] = "pdeadline" \/ (first[c] = "deadline" /\ canc[c]))
 ErrMeansNotRunModF10 == \A c \in Callers : (res[c] = "err" /\ exec[c] > 0) => F10Class(c)
+\* directed witness generation for the known finding: TLC's shortest counter-example to "no F10 of that class" is
+\* printed as a schedule (Limiter_witcancel.cfg / Limiter_witdeadline.cfg, GenHist = TRUE) and replayed on the real code
+F10Cancel(c) == res[c] = "err" /\ exec[c] > 0 /\ why[c] = "canceled"
+F10Deadline(c) == res[c] = "err" /\ exec[c] > 0 /\ why[c] \in {"deadline_exceeded", "queue_timeout"}
+EmitWit == PrintT(<<"BEH", ToJson([par |-> par, sched |-> hist])>>) /\ FALSE
+WitCancel == (\A c \in Callers : ~F10Cancel(c)) \/ EmitWit
+WitDeadline == (\A c \in Callers : ~F10Deadline(c)) \/ EmitWit
 \* once the load has stopped every permit and queue slot is free
 Released == AllFin => permH = 0 /\ permN = 0
 Counters == /\ rejected + queued <= Cardinality(Callers) /\ timeouts <= queued
@@ -221,7 +232,7 @@ Counters == /\ rejected + queued <= Cardinality(Callers) /\ timeouts <= queued
 (* Scenarios: [H, N, Q, cal : caller -> [kind, to], ev : event -> [k, c]] *)
 C(kind, to) == [kind |-> kind, to |-> to]
 X(c) == [k |-> "cancel", c |-> c]
-D(c) == [k |-> "deadline", c |-> c]
+D(c) == [k |-> "pdeadline", c |-> c]
 NoProc == [x \in {} |-> 0]
 L(H, N, Q, cal, ev) == [H |-> H, N |-> N, Q |-> Q, cal |-> cal, ev |-> ev]
 TO == {"never", "expired"}
@@ -229,19 +240,19 @@ TO == {"never", "expired"}
 \* the DESIGN scenario: heavy limit 1, queue 1, 3 heavy + 2 normal callers, cancel / deadline events
 ScnMain == {L(1, 1, 1, [c1 |-> C("heavy_cu", "never"), c2 |-> C("heavy_debug", t2), c3 |-> C("heavy_batch", "never"),
                         c4 |-> C("normal", "never"), c5 |-> C("normal", "never")], ev) :
-              t2 \in {"never", "expired", "late"}, ev \in {[x2 |-> X("c2")], [x2 |-> X("c2"), x3 |-> X("c3")], [d2 |-> D("c2"), x3 |-> X("c3")]}}
-ScnTwo == {L(2, 1, 2, [c1 |-> C("heavy_cu", "never"), c2 |-> C("heavy_cu", t2), c3 |-> C("heavy_debug", "late"), c4 |-> C("heavy_batch", t4)], ev) :
-              t2 \in TO, t4 \in TO, ev \in {NoProc, [x3 |-> X("c3")], [d3 |-> D("c3")], [x2 |-> X("c2"), x4 |-> X("c4")]}}
+              t2 \in TO, ev \in {[x2 |-> X("c2")], [x2 |-> X("c2"), x3 |-> X("c3")], [d2 |-> D("c2"), x3 |-> X("c3")]}}
+ScnTwo == {L(2, 1, 2, [c1 |-> C("heavy_cu", "never"), c2 |-> C("heavy_cu", t2), c3 |-> C("heavy_debug", "never"), c4 |-> C("heavy_batch", t4)], ev) :
+              t2 \in TO, t4 \in TO, ev \in {NoProc, [x3 |-> X("c3")], [d3 |-> D("c3")], [x2 |-> X("c2"), d4 |-> D("c4")]}}
 ScnNoQueue == {L(1, 2, 0, [c1 |-> C("heavy_cu", "never"), c2 |-> C("heavy_debug", "never"), c3 |-> C("normal", "never"),
                            c4 |-> C("normal", "never"), c5 |-> C("normal", "never")], NoProc)}
 ScnSmall == {L(1, 1, 1, [c1 |-> C("heavy_cu", "never"), c2 |-> C("heavy_debug", t2), c3 |-> C(k3, "never")], ev) :
-               t2 \in {"never", "expired", "late"}, k3 \in {"heavy_batch", "normal"},
+               t2 \in TO, k3 \in {"heavy_batch", "normal"},
                ev \in {NoProc, [x2 |-> X("c2")], [d2 |-> D("c2")], [x2 |-> X("c2"), d2 |-> D("c2")], [x2 |-> X("c2"), x3 |-> X("c3")]}}
 ScnQuick == ScnSmall \cup ScnNoQueue
 ScnAll == ScnMain \cup ScnTwo \cup ScnNoQueue \cup ScnSmall
 \* scenarios whose schedules are all enumerated (thorough tier)
 ScnEnum == {L(1, 1, 1, [c1 |-> C("heavy_cu", "never"), c2 |-> C("heavy_debug", "never")], [x2 |-> X("c2")]),
-            L(1, 1, 1, [c1 |-> C("heavy_cu", "never"), c2 |-> C("heavy_debug", "late")], [d2 |-> D("c2")]),
+            L(1, 1, 1, [c1 |-> C("heavy_cu", "never"), c2 |-> C("heavy_debug", "never")], [d2 |-> D("c2")]),
             L(1, 1, 1, [c1 |-> C("heavy_cu", "never"), c2 |-> C("heavy_debug", "expired")], NoProc),
             L(1, 1, 1, [c1 |-> C("heavy_cu", "never"), c2 |-> C("heavy_debug", "never"), c3 |-> C("heavy_batch", "never")], NoProc)}
 =============================================================================
